@@ -8,6 +8,9 @@
              returned (|F v - w v|, |V^T V - I| <= tol, w ascending) ; U == genU(ev[:, -1])
     kalign   kabsch_align(R, C): rotation, shift, rmsd == model run with LAPACK's top eigenvector
     kapplied the residual B787 measures after applying AlignmentMill(shift, rotation, ordering)
+    kdriver  real B787 runs observed trial by trial (kabsch_align, eigh and AlignmentMill.align_coordinates tapped) against
+             Model/KabschDriver.v [trial]; orderings tried == generator order; returned solution == first best trial
+    krandrot random_rotation_matrix against the translated matrix algebra (Gen/Rand3dRot.v)
     kselect  the candidate loop of B787 (first strictly better RMSD wins, early stop, mirror pass) on the
              candidate RMSDs recomputed per ordering; with run_mirror the inner superimposability pre-check
              is redirected from 'hungarian_uno' (needs networkx, absent offline) to 'permutative'
@@ -541,12 +544,13 @@ class DriverTap:
 
 
 def case_kdriver(rng):
-    """a real B787 call (all labels distinct: exactly one candidate ordering; plain trial and, with run_mirror on a chiral
-    molecule, the mirror trial) observed trial by trial, against Model/KabschDriver.v [trial]"""
+    """a real B787 call observed trial by trial, against Model/KabschDriver.v [trial]: labels all distinct (one candidate
+    ordering) or with repeated labels (several candidates, tried in the order of the generator); for every candidate the
+    plain trial and, with run_mirror on a chiral molecule, the mirror trial"""
     run_mirror = rng.random() < 0.6
-    R, _ = small_labelled(rng, chiral=True)
+    R, lab = small_labelled(rng, chiral=True)
     n = len(R)
-    runiq = np.array(["X%d" % k for k in range(n)])
+    runiq = np.array(["X%d" % k for k in range(n)]) if rng.random() < 0.5 else np.array(lab)
     perm = list(range(n))
     rng.shuffle(perm)
     base = R.copy()
@@ -564,14 +568,34 @@ def case_kdriver(rng):
         cuniq = runiq
     case = {"kind": "kdriver", "R": R.tolist(), "C": C.tolist(), "runiq": list(map(str, runiq)), "cuniq": list(map(str, cuniq)),
             "run_mirror": run_mirror, "atoms_map": atoms_map}
-    with MirrorRedirect() as red, DriverTap() as tap:
-        rmsd, sol = red.orig(C.copy(), R.copy(), cuniq, runiq, verbose=0, atoms_map=atoms_map, mols_align=False, algorithm="permutative",
-                             run_mirror=run_mirror)
+    try:
+        with MirrorRedirect() as red, DriverTap() as tap:
+            rmsd, sol = red.orig(C.copy(), R.copy(), cuniq, runiq, verbose=0, atoms_map=atoms_map, mols_align=False, algorithm="permutative",
+                                 run_mirror=run_mirror)
+    except AttributeError:
+        # no candidate ordering passes the distance filter (unrelated geometries with repeated labels): hold_solution stays None
+        import qcelemental.molutil.align as al0
+        if not atoms_map and not list(al0._plausible_atom_orderings(runiq, cuniq, R, C, algorithm="permutative", verbose=0)):
+            return {"kind": "kdriver", "skipped": True, "no_candidates": True}, []
+        raise
     ks = [k for k in tap.kcalls if np.array_equal(k["R"], R)]                      # (the inner pre-check aligns onto the mirrored cgeom)
     acs = [a for a in tap.acalls if np.array_equal(a["geom"], C) and not a["reverse"]]
     terms = []
-    if not ks or len(ks) > 2 or len(acs) < len(ks) + 1:
+    if not ks or len(acs) < len(ks) + 1:
         case["error"] = "unexpected number of trials observed: %d kabsch_align calls, %d align_coordinates calls" % (len(ks), len(acs))
+        return case, []
+    if len(ks) > 48:
+        return {"kind": "kdriver", "skipped": True, "trials": len(ks), "mirror": bool(sol.mirror)}, []
+    # the orderings tried are the candidate orderings of the generator, in its order (each once, or plain + mirror)
+    import qcelemental.molutil.align as al
+    if atoms_map:
+        expected = [list(range(n))]
+    else:
+        expected = [list(map(int, o)) for o in al._plausible_atom_orderings(runiq, cuniq, R, C, algorithm="permutative", verbose=0)]
+    tried = [a["atommap"] for a in acs[:len(ks)]]
+    per = 2 if len(ks) == 2 * len(expected) else 1
+    if len(ks) != per * len(expected) or tried != [o for o in expected for _ in range(per)]:
+        case["error"] = "the orderings tried by the loop are not the candidate orderings in generator order"
         return case, []
     for t, k in enumerate(ks):
         a = acs[t]
@@ -582,10 +606,16 @@ def case_kdriver(rng):
         trmsd = float(np.linalg.norm(a["out"] - R) * b2a() / np.sqrt(n))
         terms.append("(DTrial %s %s %s %s %s %s %s %s %s %s %s)" % (CTOL, cbool(mir), cpts(R), cpts(C), clist(a["atommap"], cnat), cvec(k["q"]),
                                                                    fq(b2a()), fq(trmsd), cmat3(k["RR"]), cvec(k["TT"]), cpts(a["out"])))
-    if [a["mirror"] for a in acs[:len(ks)]] != [False, True][:len(ks)]:
-        case["error"] = "trials are not (plain, mirror) in this order"
+    if [a["mirror"] for a in acs[:len(ks)]] != ([False, True] * len(expected) if per == 2 else [False] * len(expected)):
+        case["error"] = "trials are not (plain, mirror) per candidate in this order"
         return case, []
-    case.update(trials=len(ks), rmsd=float(rmsd), mirror=bool(sol.mirror))
+    # the solution returned is the first trial that attains the smallest rounded RMSD
+    rr = [float(np.around(np.linalg.norm(a["out"] - R) * b2a() / np.sqrt(n), decimals=8)) for a in acs[:len(ks)]]
+    win = rr.index(min(rr))
+    if [int(x) for x in sol.atommap] != tried[win] or bool(sol.mirror) != acs[win]["mirror"] or abs(float(rmsd) - rr[win]) > 1e-7:
+        case["error"] = "the returned solution is not the first trial with the smallest RMSD"
+        return case, []
+    case.update(trials=len(ks), candidates=len(expected), rmsd=float(rmsd), mirror=bool(sol.mirror))
     return case, terms
 
 
@@ -1077,11 +1107,15 @@ def correspond(ctx):
         except Exception as e:
             case, ts = {"kind": "kdriver", "error": "%s: %s" % (type(e).__name__, e)}, []
         corr.count("model-kdriver")
+        if case.get("skipped"):
+            corr.hit("kdriver_no_candidates" if case.get("no_candidates") else "kdriver_skipped_large")
+            continue
         if "error" in case:
             corr.failures.append({"stream": "model-kdriver", "case": case, "what": "B787 misbehaved while its loop was observed: " + case["error"], "observed": {}})
             continue
         corr.nontriv(case)
-        corr.hit("kdriver_trials_%d" % case["trials"])
+        corr.hit("kdriver_candidates_%s" % ("1" if case["candidates"] == 1 else "several"))
+        corr.hit("kdriver_trials_per_candidate_%d" % (case["trials"] // max(1, case["candidates"])))
         corr.hit("kdriver_mirror_%s" % case["mirror"])
         for t in ts:
             dcases.append(case)
@@ -1240,8 +1274,10 @@ LEVEL_TEXT = (
     "random numbers and every deflection in [0,1]), C12_random_rotation_domain, C12_random_rotation_no_deflection. Model tied to "
     "molutil/align.py by the translators (F, U; body of kabsch_align) and by differential execution at K = Q of kabsch_quaternion (F, "
     "eigh spec on LAPACK's output, U), kabsch_align (rotation, shift, RMSD; weighted too; copies near the allclose short-cut), the "
-    "applied residual, the candidate generator (every ordering, in order) and the B787 selection loop (incl. the mirror pass and "
-    "mols_align=True); the property itself is evaluated on the implementation (rigid copies 2-30 atoms x rotations x shifts x "
+    "applied residual, the candidate generator (every ordering, in order), the B787 selection loop (incl. the mirror pass and "
+    "mols_align=True), every trial of real B787 runs observed by tapping kabsch_align/eigh/AlignmentMill.align_coordinates against "
+    "[trial] of Model/KabschDriver.v (orderings tried = generator order, plain then mirror, returned solution = first best trial), "
+    "and random_rotation_matrix against the translated matrix algebra; the property itself is evaluated on the implementation (rigid copies 2-30 atoms x rotations x shifts x "
     "permutations, optimality vs random rotations, vs lambda_max and vs an SVD Kabsch, chiral molecules vs mirror images with "
     "run_mirror on/off, the option product of B787, near-symmetric molecules around the 1e-3 convergence threshold, near copies "
     "around the allclose short-cut, Molecule.align/scramble).")
